@@ -111,13 +111,21 @@ m("c05-no-mapback", ["C05", "C14"], "osaca/semantics/kernel_dg.py",
                 lat_path.append((s, edge_lat))""",
   """                lat_path.append((s if s < offset else s - offset + 0, edge_lat)) if s < offset else lat_path.append((s, edge_lat))""")
 m("c05-summary-min", ["C05", "C13"], "osaca/frontend.py",
-  """        if dep_dict:
+  """        lcd_lines = {}
+        if dep_dict:
             longest_lcd = max(dep_dict, key=lambda ln: dep_dict[ln]["latency"])
             lcd_sum = dep_dict[longest_lcd]["latency"]
+            lcd_lines = {
+                instr.line_number: lat for instr, lat in dep_dict[longest_lcd]["dependencies"]
+            }
         return {""",
-  """        if dep_dict:
+  """        lcd_lines = {}
+        if dep_dict:
             longest_lcd = min(dep_dict, key=lambda ln: dep_dict[ln]["latency"])
             lcd_sum = dep_dict[longest_lcd]["latency"]
+            lcd_lines = {
+                instr.line_number: lat for instr, lat in dep_dict[longest_lcd]["dependencies"]
+            }
         return {""")
 m("c14-scan-stops-at-boundary", ["C14", "C05"], "osaca/semantics/kernel_dg.py",
   """        tmp_kernel = [] + kernel
